@@ -31,13 +31,16 @@ Definition prev_float (v : f64) : f64 :=
       else bits + 1 in
     of_bits prev_bits.
 
-(* UlpUtils::next_float (ulp_utils.rs:45-58) *)
+(* UlpUtils::next_float (ulp_utils.rs:45-60) *)
 Definition next_float (v : f64) : f64 :=
   if fis_inf v && flt v c_zero then c_f64_min
   else if fis_nan v then c_nan
   else
     let bits := to_bits v in
-    let next_bits := if fge v c_zero then bits + 1 else bits - 1 in
+    let next_bits :=
+      if fgt v c_zero then bits + 1
+      else if feq v c_zero then ulp_next_of_zero_bits
+      else bits - 1 in
     of_bits next_bits.
 
 (* ---------------------------------------------------------------- float_interval.rs *)
